@@ -177,7 +177,9 @@ def lm_numeric(env, fail):
             if fail_at == trial[0]: raise RuntimeError('scripted failure')
             x = torch.linalg.solve(A, b)
             return -5 * x if trial[0] <= k_bad else x
-    opt = LevenbergMarquardt(m, solver=Solver(), reject=reject, strategy=pp.optim.strategy.Constant(1e-3))
+    # the reported loss is the ROBUST loss: half of the runs use a non-trivial kernel (residuals beyond its threshold included)
+    kern = rng.choice([None, None, pp.optim.kernel.Huber(delta=rng.uniform(0.1, 1.0)), pp.optim.kernel.Cauchy(delta=rng.uniform(0.2, 2.0))])
+    opt = LevenbergMarquardt(m, solver=Solver(), reject=reject, strategy=pp.optim.strategy.Constant(1e-3), kernel=kern)
     p0 = m.p.detach().clone(); l0 = float(opt.model.loss(None, None))
     holder.update(opt=opt, p0=p0, l0=l0)
     ret = opt.step(None)
